@@ -42,6 +42,8 @@ class World:
         self.chlog = []
         self.seen_ids = set()
         self.kinds = {}
+        self.server_seen = None
+        self.expect_server = 1
 
     def harvest(self):
         for e in self.chlog:
@@ -66,11 +68,18 @@ class World:
         return val
 
     # ---- gRPC server side
+    def respond_on(self, server_id):
+        def f(path, reqs, md, tr):
+            self.server_seen = server_id
+            return self.respond(path, reqs, md, tr)
+        return f
+
     def respond(self, path, reqs, md, tr):
         c = self.case
         self.harvest()
         kind = self.kinds.get(path)
-        self.events.append(dict(ev='sent', path=path, kind=kind or '?', msgs=[self.project_req(c, r) for r in reqs]))
+        self.events.append(dict(ev='sent', path=path, kind=kind or '?', msgs=[self.project_req(c, r) for r in reqs],
+                                own=self.server_seen == self.expect_server))
         _, rs = self.types(c)
         if c['void']:
             return [b'']
@@ -84,7 +93,7 @@ class World:
         if entry['body']:
             json_format.Parse(entry['body'].decode(), m)
         raw = m.SerializeToString()
-        self.events.append(dict(ev='sent', path=entry['path'], kind='http', msgs=[self.project_req(c, raw)]))
+        self.events.append(dict(ev='sent', path=entry['path'], kind='http', msgs=[self.project_req(c, raw)], own=True))
         if c['void']:
             return 200, b'{}', {}
         if c['ss']:
@@ -172,11 +181,14 @@ async def run_async(w, client, mod, c):
 def main():
     pl = rt.read_payload()
     w = World(pl)
-    srv = lg.Server(w.respond)
+    # two servers and two clients per kind: a call must go out on the channel of the client it was made on
+    srv = lg.Server(w.respond_on(1))
+    srv2 = lg.Server(w.respond_on(2))
     hsrv = lh.Server(w.respond_http)
     out = []
     try:
         mod, sclient, sch = rt.grpc_client(pl['module'], 'things', 'Things', srv.target, w.chlog)
+        _, sclient2, sch2 = rt.grpc_client(pl['module'], 'things', 'Things', srv2.target, w.chlog)
         _, rclient = rt.rest_client(pl['module'], 'things', 'Things', hsrv.hostport)
 
         def one(c, runner):
@@ -190,9 +202,10 @@ def main():
                 w.events.append(dict(ev='raise', type=type(e).__name__, msg=str(e)[:300]))
             out.append(dict(i=c['i'], events=w.events, error=err))
 
-        for c in pl['cases']:
+        for n, c in enumerate(pl['cases']):
             if c['transport'] == 'grpc':
-                one(c, lambda c: run_sync(w, sclient, mod, c))
+                w.expect_server = 1 + n % 2
+                one(c, lambda c: run_sync(w, sclient if w.expect_server == 1 else sclient2, mod, c))
             elif c['transport'] == 'rest':
                 one(c, lambda c: run_sync(w, rclient, mod, c))
 
@@ -200,19 +213,21 @@ def main():
         if acases:
             async def amain():
                 amod, aclient, ach = rt.grpc_client(pl['module'], 'things', 'Things', srv.target, w.chlog, asyncio_=True)
-                for c in acases:
+                _, aclient2, ach2 = rt.grpc_client(pl['module'], 'things', 'Things', srv2.target, w.chlog, asyncio_=True)
+                for n, c in enumerate(acases):
+                    w.expect_server = 1 + n % 2
                     w.case, w.events = c, []
                     w.harvest()
                     del w.chlog[:]
                     try:
-                        await run_async(w, aclient, amod, c)
+                        await run_async(w, aclient if w.expect_server == 1 else aclient2, amod, c)
                     except Exception as e:
                         w.events.append(dict(ev='raise', type=type(e).__name__, msg=str(e)[:300]))
                     out.append(dict(i=c['i'], events=w.events, error=None))
-                await ach.close()
+                await ach.close(); await ach2.close()
             asyncio.run(amain())
     finally:
-        srv.stop(); hsrv.stop()
+        srv.stop(); srv2.stop(); hsrv.stop()
     rt.emit(dict(obs=out))
 
 
